@@ -121,6 +121,17 @@ Proof.
   - simpl. f_equal. apply IH. intro H. apply Hn. right. exact H.
 Qed.
 
+Lemma alookup_cons_other_gen : forall {A} (e : list (str * A)) x (v : A) y, y <> x -> alookup ((x, v) :: e) y = alookup e y.
+Proof. intros A e x v y H. simpl. apply str_eqb_false in H. rewrite H. reflexivity. Qed.
+
+Lemma NoDup_app_intro : forall {A} (a b : list A), NoDup a -> NoDup b -> (forall x, In x a -> In x b -> False) -> NoDup (a ++ b).
+Proof.
+  intros A a b Na Nb D. induction Na as [|x a Hn Na IH]; simpl; [exact Nb | ].
+  constructor.
+  - rewrite in_app_iff. intros [H|H]; [contradiction | ]. apply (D x); [left; reflexivity | exact H].
+  - apply IH. intros y Hy. apply D. right. exact Hy.
+Qed.
+
 Definition seteq (a b : list str) : Prop := forall x, In x a <-> In x b.
 
 (* ------------------------------------------------------------------ the resolution loop *)
@@ -798,25 +809,25 @@ Section ResolveProofs.
     Compat todo0 todo0' e0 e0' -> Outcome todo0 e0 r -> Outcome todo0' e0' r' -> set_equiv_results r r'.
   Proof.
     intros EXT todo0 todo0' e0 e0' r r' C O O'. pose proof (Compat_sym _ _ _ _ C) as C'.
-    destruct r as [e1|[ | |x1|l1|l1| ]]; simpl in O; try contradiction;
-    destruct r' as [e2|[ | |x2|l2|l2| ]]; simpl in O'; try contradiction; simpl.
-    - eapply ok_ok; eauto.
-    - eapply (ok_vs_formula EXT _ _ _ _ _ _ C'); simpl; eauto.
+    destruct r as [e1|[k1| |x1|l1|l1| ]]; simpl in O; try contradiction;
+    destruct r' as [e2|[k2| |x2|l2|l2| ]]; simpl in O'; try contradiction; simpl.
+    - exact (ok_ok EXT _ _ _ _ _ _ C O O').
+    - exact (ok_vs_formula EXT _ _ _ _ _ _ C' O' O).
     - destruct O' as [rem [e [B [ST _]]]]. eapply (ok_vs_stuck _ _ _ _ _ _ _ C' B ST). exact O.
     - destruct O' as [rem [e [B [ST _]]]]. eapply (ok_vs_stuck _ _ _ _ _ _ _ C' B ST). exact O.
-    - eapply (ok_vs_formula EXT _ _ _ _ _ _ C); simpl; eauto.
+    - exact (ok_vs_formula EXT _ _ _ _ _ _ C O O').
     - exact I.
-    - destruct O' as [rem [e [B [ST _]]]]. eapply (formula_vs_stuck EXT _ _ _ _ _ _ _ C); simpl; eauto.
-    - destruct O' as [rem [e [B [ST _]]]]. eapply (formula_vs_stuck EXT _ _ _ _ _ _ _ C); simpl; eauto.
+    - destruct O' as [rem [e [B [ST _]]]]. exact (formula_vs_stuck EXT _ _ _ _ _ _ _ C O B ST).
+    - destruct O' as [rem [e [B [ST _]]]]. exact (formula_vs_stuck EXT _ _ _ _ _ _ _ C O B ST).
     - destruct O as [rem [e [B [ST _]]]]. eapply (ok_vs_stuck _ _ _ _ _ _ _ C B ST). exact O'.
-    - destruct O as [rem [e [B [ST _]]]]. eapply (formula_vs_stuck EXT _ _ _ _ _ _ _ C'); simpl; eauto.
+    - destruct O as [rem [e [B [ST _]]]]. exact (formula_vs_stuck EXT _ _ _ _ _ _ _ C' O' B ST).
     - destruct O as [rem1 [e1 [B1 [ST1 [BI1 NL1]]]]]. destruct O' as [rem2 [e2 [B2 [ST2 [BI2 NL2]]]]].
       destruct (stuck_stuck _ _ _ _ _ _ _ _ C B1 ST1 B2 ST2) as [K _]. rewrite BI1, BI2 in K. exact K.
     - destruct O as [rem1 [e1 [B1 [ST1 [BI1 NL1]]]]]. destruct O' as [rem2 [e2 [B2 [ST2 [BI2 NL2]]]]].
       destruct (stuck_stuck _ _ _ _ _ _ _ _ C B1 ST1 B2 ST2) as [K _]. rewrite BI1, BI2 in K.
       apply NL1. eapply seteq_nil; [apply seteq_sym; exact K | reflexivity].
     - destruct O as [rem [e [B [ST _]]]]. eapply (ok_vs_stuck _ _ _ _ _ _ _ C B ST). exact O'.
-    - destruct O as [rem [e [B [ST _]]]]. eapply (formula_vs_stuck EXT _ _ _ _ _ _ _ C'); simpl; eauto.
+    - destruct O as [rem [e [B [ST _]]]]. exact (formula_vs_stuck EXT _ _ _ _ _ _ _ C' O' B ST).
     - destruct O as [rem1 [e1 [B1 [ST1 [BI1 NL1]]]]]. destruct O' as [rem2 [e2 [B2 [ST2 [BI2 NL2]]]]].
       destruct (stuck_stuck _ _ _ _ _ _ _ _ C B1 ST1 B2 ST2) as [K _]. rewrite BI1, BI2 in K.
       apply NL2. eapply seteq_nil; [exact K | reflexivity].
@@ -840,3 +851,554 @@ Section ResolveProofs.
       - eapply Permutation_in; [apply Permutation_sym; exact PM | exact H]. }
     eapply outcomes_equiv; eauto; apply resolve_outcome; auto.
   Qed.
+
+  (* ---------------------------------------------------------------- one sample of gen_symbols_samples *)
+  Notation samplerT := (sampler formula).
+  Notation sfT := (list (str * samplerT)).
+  Notation gen_sampleM := (gen_sample V formula fdeps ev).
+  Notation dependentsM := (dependents formula).
+  Notation independentM := (independent formula).
+  Notation is_depM := (is_dep formula).
+
+  Lemma alookup_app : forall {A} (a b : list (str * A)) x,
+    alookup (a ++ b) x = match alookup a x with Some v => Some v | None => alookup b x end.
+  Proof.
+    intros A a b x. induction a as [|[y v] a IH]; simpl; [reflexivity | ].
+    destruct (str_eqb x y); [reflexivity | exact IH].
+  Qed.
+
+  Lemma alookup_filter_key : forall {A} (g : str -> bool) (l : list (str * A)) c,
+    alookup (filter (fun kv => g (fst kv)) l) c = if g c then alookup l c else None.
+  Proof.
+    intros A g l c. induction l as [|[y v] l IH]; simpl.
+    - destruct (g c); reflexivity.
+    - destruct (g y) eqn:G; simpl.
+      + destruct (str_eqb c y) eqn:E.
+        * apply str_eqb_eq in E. subst. rewrite G. reflexivity.
+        * exact IH.
+      + destruct (str_eqb c y) eqn:E.
+        * apply str_eqb_eq in E. subst. rewrite G in *. exact IH.
+        * exact IH.
+  Qed.
+
+  Lemma prune_lookup : forall (constants : envT) symbols c,
+    alookup (prune V constants symbols) c = if smem c symbols then None else alookup constants c.
+  Proof.
+    intros constants symbols c. unfold prune.
+    rewrite (alookup_filter_key (fun k => negb (smem k symbols)) constants c).
+    destruct (smem c symbols); reflexivity.
+  Qed.
+
+  Lemma dependents_names : forall symbols (sf : sfT),
+    map fst (dependentsM symbols sf) = filter (is_depM sf) (sdedup symbols).
+  Proof.
+    intros symbols sf. unfold dependents, is_dep. induction (sdedup symbols) as [|x l IH]; simpl; [reflexivity | ].
+    rewrite map_app, IH. destruct (alookup sf x) as [[|f]|]; reflexivity.
+  Qed.
+
+  Lemma dependents_NoDup : forall symbols (sf : sfT), NoDup (map fst (dependentsM symbols sf)).
+  Proof. intros. rewrite dependents_names. apply NoDup_filter. apply NoDup_sdedup. Qed.
+
+  Lemma In_dependents : forall symbols (sf : sfT) x f,
+    In (x, f) (dependentsM symbols sf) <-> In x symbols /\ alookup sf x = Some (SDep f).
+  Proof.
+    intros symbols sf x f. unfold dependents. rewrite in_flat_map. split.
+    - intros [y [Hy H]]. apply (proj1 (In_sdedup _ _)) in Hy. destruct (alookup sf y) as [[|g]|] eqn:L; simpl in H; try contradiction.
+      destruct H as [H|[]]. inversion H. subst. auto.
+    - intros [H L]. exists x. split; [apply In_sdedup; exact H | ]. rewrite L. left. reflexivity.
+  Qed.
+
+  Lemma draw_all_spec : forall names draws (e e' : envT),
+    draw_all V names draws e = Some e' -> NoDup names ->
+    (forall y, ~ In y names -> alookup e' y = alookup e y) /\
+    (forall i x, nth_error names i = Some x -> exists v, nth_error draws i = Some v /\ alookup e' x = Some v).
+  Proof.
+    induction names as [|x r IH]; intros draws e e' H ND.
+    - simpl in H. inversion H. subst. split; [auto | ]. intros [|i] y Hy; discriminate.
+    - destruct draws as [|d ds]; [discriminate | ]. simpl in H. inversion ND as [|? ? Hn ND']. subst.
+      destruct (IH _ _ _ H ND') as [K1 K2]. split.
+      + intros y Hy. rewrite K1 by (intro; apply Hy; right; assumption).
+        apply alookup_cons_other. intro; apply Hy; left; congruence.
+      + intros [|i] y Hy; simpl in Hy.
+        * inversion Hy. subst y. exists d. split; [reflexivity | ]. rewrite (K1 x Hn). simpl.
+          rewrite str_eqb_refl. reflexivity.
+        * apply K2. exact Hy.
+  Qed.
+
+  Lemma draw_all_mem : forall names draws (e e' : envT),
+    draw_all V names draws e = Some e' -> forall y, amem e' y = amem e y || smem y names.
+  Proof.
+    induction names as [|x r IH]; intros draws e e' H y.
+    - simpl in H. inversion H. subst. simpl. rewrite orb_false_r. reflexivity.
+    - destruct draws as [|d ds]; [discriminate | ]. simpl in H. rewrite (IH _ _ _ H y).
+      rewrite amem_cons. simpl. destruct (str_eqb y x); destruct (amem e y); destruct (smem y r); reflexivity.
+  Qed.
+
+  Lemma draw_all_some : forall names draws (e : envT), (length names <= length draws)%nat ->
+    exists e', draw_all V names draws e = Some e'.
+  Proof.
+    induction names as [|x r IH]; intros draws e H; simpl; [eauto | ].
+    destruct draws as [|d ds]; simpl in H; [lia | ]. apply IH. lia.
+  Qed.
+
+  Lemma is_dep_true : forall (sf : sfT) x, is_depM sf x = true <-> exists f, alookup sf x = Some (SDep f).
+  Proof.
+    intros sf x. unfold is_dep. destruct (alookup sf x) as [[|f]|]; split; try discriminate; eauto;
+      intros [g H]; discriminate.
+  Qed.
+
+  Lemma gen_sample_inv : forall symbols (sf : sfT) (constants : envT) draws r,
+    gen_sampleM symbols sf constants draws = r ->
+    (exists x, r = RErr (EKey x) /\ In x symbols /\ amem sf x = false) \/
+    (r = RErr EDraws /\ (length draws < length (independentM symbols sf))%nat) \/
+    (exists e0, draw_all V (independentM symbols sf) draws (prune V constants symbols) = Some e0 /\
+                (forall x, In x symbols -> amem sf x = true) /\
+                fresh (dependentsM symbols sf) e0 /\
+                r = resolveM (dependentsM symbols sf) e0).
+  Proof.
+    intros symbols sf constants draws r H. unfold gen_sample in H.
+    destruct (missing_key formula symbols sf) as [x|] eqn:MK.
+    - left. exists x. unfold missing_key in MK. apply find_some in MK. destruct MK as [K1 K2].
+      apply negb_true_iff in K2. auto.
+    - right. destruct (draw_all V (independentM symbols sf) draws (prune V constants symbols)) as [e0|] eqn:DA.
+      + right. exists e0. split; [reflexivity | ]. split.
+        * intros x Hx. unfold missing_key in MK. pose proof (find_none _ _ MK x Hx) as K.
+          apply negb_false_iff in K. exact K.
+        * split; [ | auto]. intros [x f] Hin. simpl. apply In_dependents in Hin. destruct Hin as [Hs L].
+          rewrite (draw_all_mem _ _ _ _ DA x). apply orb_false_iff. split.
+          -- unfold amem. rewrite prune_lookup. apply smem_In in Hs. rewrite Hs. reflexivity.
+          -- apply smem_false. unfold independent. rewrite filter_In. intros [_ K].
+             apply negb_true_iff in K. unfold is_dep in K. rewrite L in K. discriminate.
+      + left. split; [auto | ]. destruct (le_lt_dec (length (independentM symbols sf)) (length draws)) as [LE|LT]; [ | exact LT].
+        destruct (draw_all_some _ _ (prune V constants symbols) LE) as [e' K]. congruence.
+  Qed.
+
+  (* the while loop of every sample stops; anything that goes wrong inside it is a ConfigError *)
+  Theorem gen_sample_terminates : forall symbols (sf : sfT) constants draws,
+    gen_sampleM symbols sf constants draws <> RErr EFuel.
+  Proof.
+    intros symbols sf constants draws H.
+    destruct (gen_sample_inv _ _ _ _ _ H) as [[x [K _]]|[[K _]|[e0 [DA [MK [FR K]]]]]]; try discriminate.
+    symmetry in K. eapply resolve_terminates; [apply dependents_NoDup | exact FR | exact K].
+  Qed.
+
+  Theorem gen_sample_error_kinds : forall symbols (sf : sfT) constants draws x,
+    (forall s, In s symbols -> amem sf s = true) ->
+    (length (independentM symbols sf) <= length draws)%nat ->
+    gen_sampleM symbols sf constants draws = RErr x -> is_config_error x = true.
+  Proof.
+    intros symbols sf constants draws x HK HD H.
+    destruct (gen_sample_inv _ _ _ _ _ H) as [[y [K [K1 K2]]]|[[K K1]|[e0 [DA [MK [FR K]]]]]].
+    - rewrite (HK _ K1) in K2. discriminate.
+    - lia.
+    - symmetry in K. eapply resolve_error_is_config_error; [apply dependents_NoDup | exact FR | exact K].
+  Qed.
+
+  (* completeness of the key set *)
+  Theorem gen_sample_complete : forall symbols (sf : sfT) constants draws e,
+    gen_sampleM symbols sf constants draws = ROk e ->
+    (forall x, In x symbols -> amem e x = true) /\
+    (forall c v, alookup constants c = Some v -> ~ In c symbols -> alookup e c = Some v) /\
+    (forall y, amem e y = true -> In y symbols \/ (amem constants y = true /\ ~ In y symbols)).
+  Proof.
+    intros symbols sf constants draws e H.
+    destruct (gen_sample_inv _ _ _ _ _ H) as [[y [K _]]|[[K _]|[e0 [DA [MK [FR K]]]]]]; try discriminate.
+    pose proof (resolve_outcome _ _ (dependents_NoDup symbols sf) FR) as O. rewrite <- K in O.
+    destruct O as [B ALL]. split; [ | split].
+    - intros x Hx. destruct (is_depM sf x) eqn:D.
+      + apply is_dep_true in D. destruct D as [f L]. apply (ALL (x, f)). apply In_dependents. auto.
+      + eapply built_mem_mono; [exact B | ]. rewrite (draw_all_mem _ _ _ _ DA x). apply orb_true_iff. right.
+        apply smem_In. unfold independent. apply filter_In. rewrite D. auto.
+    - intros c v L NI. apply (built_extends _ _ _ B).
+      assert (NI' : ~ In c (independentM symbols sf)) by (unfold independent; rewrite filter_In; tauto).
+      assert (ND : exists e1, Some e1 = Some e0) by eauto.
+      clear ND.
+      (* lookup through the draws: c is not drawn *)
+      assert (G : forall names draws (ea eb : envT), draw_all V names draws ea = Some eb -> ~ In c names ->
+                  alookup eb c = alookup ea c).
+      { clear. induction names as [|x r IH]; intros draws ea eb H NI; simpl in H.
+        - inversion H. reflexivity.
+        - destruct draws as [|d ds]; [discriminate | ]. rewrite (IH _ _ _ H) by (intro; apply NI; right; assumption).
+          apply alookup_cons_other. intro. apply NI. left. congruence. }
+      rewrite (G _ _ _ _ DA NI'). rewrite prune_lookup. apply smem_false in NI. rewrite NI. exact L.
+    - intros y Hy. destruct (built_keys _ _ _ _ B Hy) as [K1|K1].
+      + rewrite (draw_all_mem _ _ _ _ DA y) in K1. apply orb_true_iff in K1. destruct K1 as [K1|K1].
+        * unfold amem in K1. rewrite prune_lookup in K1. destruct (smem y symbols) eqn:S; [discriminate | ].
+          right. split; [exact K1 | apply smem_false; exact S].
+        * left. apply smem_In in K1. unfold independent in K1. apply filter_In in K1. tauto.
+      + left. apply in_map_iff in K1. destruct K1 as [[y' f] [E K1]]. simpl in E. subst y'.
+        apply In_dependents in K1. tauto.
+  Qed.
+
+  (* independent variables carry exactly the values their sampling sets returned, in call order *)
+  Theorem gen_sample_independent_values : forall symbols (sf : sfT) constants draws e,
+    NoDup symbols -> gen_sampleM symbols sf constants draws = ROk e ->
+    forall i x, nth_error (independentM symbols sf) i = Some x ->
+      exists v, nth_error draws i = Some v /\ alookup e x = Some v.
+  Proof.
+    intros symbols sf constants draws e ND H i x Hi.
+    destruct (gen_sample_inv _ _ _ _ _ H) as [[y [K _]]|[[K _]|[e0 [DA [MK [FR K]]]]]]; try discriminate.
+    pose proof (resolve_outcome _ _ (dependents_NoDup symbols sf) FR) as O. rewrite <- K in O.
+    destruct O as [B _].
+    assert (NDI : NoDup (independentM symbols sf)) by (apply NoDup_filter; exact ND).
+    destruct (draw_all_spec _ _ _ _ DA NDI) as [_ K2]. destruct (K2 _ _ Hi) as [v [N L]].
+    exists v. split; [exact N | ]. apply (built_extends _ _ _ B). exact L.
+  Qed.
+
+  (* dependent variables: value = formula evaluated on the same sample, which does not involve the variable itself *)
+  Theorem gen_sample_consistent : ev_extensional -> forall symbols (sf : sfT) constants draws e,
+    gen_sampleM symbols sf constants draws = ROk e ->
+    forall x f, In x symbols -> alookup sf x = Some (SDep f) ->
+      (forall d, In d (fdeps f) -> amem e d = true) /\ ~ In x (fdeps f) /\
+      exists v, alookup e x = Some v /\ ev f e = Some v.
+  Proof.
+    intros EXT symbols sf constants draws e H x f Hx L.
+    destruct (gen_sample_inv _ _ _ _ _ H) as [[y [K _]]|[[K _]|[e0 [DA [MK [FR K]]]]]]; try discriminate.
+    symmetry in K. destruct (resolve_ok_sound EXT _ _ _ (dependents_NoDup symbols sf) FR K) as [_ [_ S]].
+    apply S. apply In_dependents. auto.
+  Qed.
+
+  Theorem gen_sample_cycle_is_config_error : forall symbols (sf : sfT) constants draws x,
+    (forall s, In s symbols -> amem sf s = true) ->
+    (length (independentM symbols sf) <= length draws)%nat ->
+    chain (dependentsM symbols sf) x x ->
+    exists er, gen_sampleM symbols sf constants draws = RErr er /\ is_config_error er = true.
+  Proof.
+    intros symbols sf constants draws x HK HD C.
+    destruct (gen_sample_inv _ _ _ _ _ (eq_refl (gen_sampleM symbols sf constants draws)))
+      as [[y [K [K1 K2]]]|[[K K1]|[e0 [DA [MK [FR K]]]]]].
+    - rewrite (HK _ K1) in K2. discriminate.
+    - lia.
+    - rewrite K. eapply cycle_is_config_error; eauto. apply dependents_NoDup.
+  Qed.
+
+  Theorem gen_sample_dangling_is_config_error : forall symbols (sf : sfT) constants draws x f d,
+    (forall s, In s symbols -> amem sf s = true) ->
+    (length (independentM symbols sf) <= length draws)%nat ->
+    In x symbols -> alookup sf x = Some (SDep f) -> In d (fdeps f) ->
+    ~ In d symbols -> amem constants d = false ->
+    exists er, gen_sampleM symbols sf constants draws = RErr er /\ is_config_error er = true.
+  Proof.
+    intros symbols sf constants draws x f d HK HD Hx L Hd NS NC.
+    destruct (gen_sample_inv _ _ _ _ _ (eq_refl (gen_sampleM symbols sf constants draws)))
+      as [[y [K [K1 K2]]]|[[K K1]|[e0 [DA [MK [FR K]]]]]].
+    - rewrite (HK _ K1) in K2. discriminate.
+    - lia.
+    - rewrite K. eapply (dangling_is_config_error _ _ x f d); eauto.
+      + apply dependents_NoDup.
+      + apply In_dependents. auto.
+      + rewrite (draw_all_mem _ _ _ _ DA d). apply orb_false_iff. split.
+        * unfold amem. rewrite prune_lookup. destruct (smem d symbols); [reflexivity | ].
+          unfold amem in NC. exact NC.
+        * apply smem_false. unfold independent. rewrite filter_In. tauto.
+      + intro K'. apply in_map_iff in K'. destruct K' as [[d' g] [E K']]. simpl in E. subst d'.
+        apply In_dependents in K'. tauto.
+  Qed.
+
+  (* a closed acyclic declaration whose formulas evaluate always yields a sample *)
+  Theorem gen_sample_succeeds : forall symbols (sf : sfT) constants draws (rank : str -> nat),
+    (forall s, In s symbols -> amem sf s = true) ->
+    (length (independentM symbols sf) <= length draws)%nat ->
+    (forall x f d, In x symbols -> alookup sf x = Some (SDep f) -> In d (fdeps f) ->
+        (In d symbols \/ amem constants d = true) /\ (is_depM sf d = true -> In d symbols -> (rank d < rank x)%nat)) ->
+    (forall f e, ready f e = true -> ev f e <> None) ->
+    exists e, gen_sampleM symbols sf constants draws = ROk e.
+  Proof.
+    intros symbols sf constants draws rank HK HD CR TOT.
+    destruct (gen_sample_inv _ _ _ _ _ (eq_refl (gen_sampleM symbols sf constants draws)))
+      as [[y [K [K1 K2]]]|[[K K1]|[e0 [DA [MK [FR K]]]]]].
+    - rewrite (HK _ K1) in K2. discriminate.
+    - lia.
+    - rewrite K.
+      assert (CRK : closed_ranked (dependentsM symbols sf) e0 rank).
+      { intros x f d Hin Hd. apply In_dependents in Hin. destruct Hin as [Hx L].
+        destruct (CR x f d Hx L Hd) as [C1 C2].
+        destruct (in_dec str_eq_dec d symbols) as [DS|DS].
+        - destruct (is_depM sf d) eqn:D.
+          + right. split; [ | auto]. apply is_dep_true in D. destruct D as [g Lg].
+            apply in_map_iff. exists (d, g). split; [reflexivity | apply In_dependents; auto].
+          + left. rewrite (draw_all_mem _ _ _ _ DA d). apply orb_true_iff. right. apply smem_In.
+            unfold independent. apply filter_In. rewrite D. auto.
+        - left. destruct C1 as [C1|C1]; [contradiction | ].
+          rewrite (draw_all_mem _ _ _ _ DA d). apply orb_true_iff. left.
+          unfold amem. rewrite prune_lookup. apply smem_false in DS. rewrite DS. exact C1. }
+      destruct (closed_acyclic_resolves _ _ rank (dependents_NoDup symbols sf) FR CRK) as [[e E]|[x E]]; [eauto | ].
+      exfalso. pose proof (resolve_outcome _ _ (dependents_NoDup symbols sf) FR) as O. rewrite E in O.
+      destruct O as [f [e1 [_ [_ [R N]]]]]. exact (TOT _ _ R N).
+  Qed.
+
+  (* --- order independence of a whole sample --- *)
+  Lemma alookup_perm : forall (a b : envT), NoDup (map fst a) -> Permutation a b ->
+    forall x, alookup a x = alookup b x.
+  Proof.
+    intros a b ND PM x.
+    assert (ND' : NoDup (map fst b)) by (eapply Permutation_NoDup; [apply Permutation_map; exact PM | exact ND]).
+    destruct (alookup a x) as [v|] eqn:La; destruct (alookup b x) as [w|] eqn:Lb; auto.
+    - apply alookup_In in La. apply (Permutation_in _ PM) in La.
+      rewrite (alookup_NoDup_In _ _ _ ND' La) in Lb. congruence.
+    - apply alookup_In in La. apply (Permutation_in _ PM) in La.
+      rewrite (alookup_NoDup_In _ _ _ ND' La) in Lb. congruence.
+    - apply alookup_In in Lb. apply (Permutation_in _ (Permutation_sym PM)) in Lb.
+      rewrite (alookup_NoDup_In _ _ _ ND Lb) in La. congruence.
+  Qed.
+
+  Lemma draw_all_rev : forall names draws (e e' : envT),
+    draw_all V names draws e = Some e' -> e' = rev (combine names draws) ++ e.
+  Proof.
+    induction names as [|x r IH]; intros draws e e' H; simpl in H.
+    - inversion H. reflexivity.
+    - destruct draws as [|d ds]; [discriminate | ]. rewrite (IH _ _ _ H). simpl. rewrite <- app_assoc. reflexivity.
+  Qed.
+
+  Lemma map_fst_combine : forall {A B} (a : list A) (b : list B), (length a <= length b)%nat ->
+    map fst (combine a b) = a.
+  Proof.
+    induction a as [|x a IH]; intros b H; [reflexivity | ].
+    destruct b as [|y b]; simpl in H; [lia | ]. simpl. f_equal. apply IH. lia.
+  Qed.
+
+  Theorem gen_sample_order_independent : ev_extensional ->
+    forall symbols symbols' (sf : sfT) constants draws draws',
+    NoDup symbols -> Permutation symbols symbols' ->
+    (forall s, In s symbols -> amem sf s = true) ->
+    (length (independentM symbols sf) <= length draws)%nat ->
+    (length (independentM symbols' sf) <= length draws')%nat ->
+    Permutation (combine (independentM symbols sf) draws) (combine (independentM symbols' sf) draws') ->
+    set_equiv_results (gen_sampleM symbols sf constants draws) (gen_sampleM symbols' sf constants draws').
+  Proof.
+    intros EXT symbols symbols' sf constants draws draws' ND PM HK HD HD' PD.
+    assert (ND' : NoDup symbols') by (eapply Permutation_NoDup; eauto).
+    assert (HK' : forall s, In s symbols' -> amem sf s = true).
+    { intros s Hs. apply HK. eapply Permutation_in; [apply Permutation_sym; exact PM | exact Hs]. }
+    destruct (gen_sample_inv _ _ _ _ _ (eq_refl (gen_sampleM symbols sf constants draws)))
+      as [[y [K [K1 K2]]]|[[K K1]|[e0 [DA [MK [FR K]]]]]];
+      [rewrite (HK _ K1) in K2; discriminate | lia | ].
+    destruct (gen_sample_inv _ _ _ _ _ (eq_refl (gen_sampleM symbols' sf constants draws')))
+      as [[y [K' [K1 K2]]]|[[K' K1]|[e0' [DA' [MK' [FR' K']]]]]];
+      [rewrite (HK' _ K1) in K2; discriminate | lia | ].
+    rewrite K, K'. apply resolve_order_independent; auto.
+    - apply dependents_NoDup.
+    - unfold dependents. rewrite (sdedup_NoDup_id _ ND), (sdedup_NoDup_id _ ND'). apply Permutation_flat_map. exact PM.
+    - intro x. rewrite (draw_all_rev _ _ _ _ DA), (draw_all_rev _ _ _ _ DA'). rewrite !alookup_app.
+      assert (E1 : alookup (rev (combine (independentM symbols sf) draws)) x =
+                   alookup (rev (combine (independentM symbols' sf) draws')) x).
+      { apply alookup_perm.
+        - rewrite map_rev, map_fst_combine by exact HD. apply NoDup_rev. apply NoDup_filter. exact ND.
+        - eapply Permutation_trans; [apply Permutation_sym; apply Permutation_rev | ].
+          eapply Permutation_trans; [exact PD | apply Permutation_rev]. }
+      rewrite E1. destruct (alookup (rev (combine (independentM symbols' sf) draws')) x); [reflexivity | ].
+      rewrite !prune_lookup.
+      assert (E2 : smem x symbols = smem x symbols').
+      { destruct (smem x symbols) eqn:S1; destruct (smem x symbols') eqn:S2; auto.
+        - apply smem_In in S1. apply (Permutation_in _ PM) in S1. apply smem_In in S1. congruence.
+        - apply smem_In in S2. apply (Permutation_in _ (Permutation_sym PM)) in S2. apply smem_In in S2. congruence. }
+      rewrite E2. reflexivity.
+  Qed.
+
+  (* --- all samples of a call --- *)
+  Notation gen_samples_fromM := (gen_samples_from V formula fdeps ev).
+  Notation gen_symbols_samplesM := (gen_symbols_samples V formula fdeps ev).
+
+  Lemma gen_samples_from_ok : forall draws i symbols (sf : sfT) constants l,
+    gen_samples_fromM i symbols sf constants draws = RsOk l ->
+    Forall2 (fun d e => gen_sampleM symbols sf constants d = ROk e) draws l.
+  Proof.
+    induction draws as [|d ds IH]; intros i symbols sf constants l H; simpl in H.
+    - inversion H. constructor.
+    - destruct (gen_sampleM symbols sf constants d) as [e|x] eqn:G; [ | discriminate].
+      destruct (gen_samples_fromM (S i) symbols sf constants ds) as [l'|j x] eqn:R; [ | discriminate].
+      inversion H. subst. constructor; [exact G | eapply IH; eauto].
+  Qed.
+
+  Lemma gen_samples_from_err : forall draws i symbols (sf : sfT) constants j x,
+    gen_samples_fromM i symbols sf constants draws = RsErr j x ->
+    exists d, nth_error draws (j - i) = Some d /\ (i <= j)%nat /\ gen_sampleM symbols sf constants d = RErr x.
+  Proof.
+    induction draws as [|d ds IH]; intros i symbols sf constants j x H; simpl in H; [discriminate | ].
+    destruct (gen_sampleM symbols sf constants d) as [e|y] eqn:G.
+    - destruct (gen_samples_fromM (S i) symbols sf constants ds) as [l'|j' y] eqn:R; [discriminate | ].
+      inversion H. subst. destruct (IH _ _ _ _ _ _ R) as [d' [N [LE G']]].
+      exists d'. split; [ | split; [lia | exact G']].
+      replace (j - i)%nat with (S (j - S i)) by lia. exact N.
+    - inversion H. subst. exists d. rewrite Nat.sub_diag. auto.
+  Qed.
+
+  (* every sample of a successful call is complete and consistent; the number of samples is the number asked for *)
+  Theorem gen_symbols_samples_ok : ev_extensional -> forall symbols (sf : sfT) constants draws l,
+    gen_symbols_samplesM symbols sf constants draws = RsOk l ->
+    length l = length draws /\
+    Forall (fun e =>
+      (forall x, In x symbols -> amem e x = true) /\
+      (forall c v, alookup constants c = Some v -> ~ In c symbols -> alookup e c = Some v) /\
+      (forall y, amem e y = true -> In y symbols \/ (amem constants y = true /\ ~ In y symbols)) /\
+      (forall x f, In x symbols -> alookup sf x = Some (SDep f) ->
+         (forall d, In d (fdeps f) -> amem e d = true) /\ ~ In x (fdeps f) /\
+         exists v, alookup e x = Some v /\ ev f e = Some v)) l.
+  Proof.
+    intros EXT symbols sf constants draws l H. apply gen_samples_from_ok in H. split.
+    - clear EXT. induction H; simpl; [reflexivity | f_equal; assumption].
+    - induction H as [|d e ds l G _ IH]; constructor; [ | exact IH].
+      destruct (gen_sample_complete _ _ _ _ _ G) as [C1 [C2 C3]].
+      split; [exact C1 | ]. split; [exact C2 | ]. split; [exact C3 | ].
+      intros x f Hx L. eapply gen_sample_consistent; eauto.
+  Qed.
+
+  Theorem gen_symbols_samples_errors : forall symbols (sf : sfT) constants draws j x,
+    (forall s, In s symbols -> amem sf s = true) ->
+    Forall (fun d => (length (independentM symbols sf) <= length d)%nat) draws ->
+    gen_symbols_samplesM symbols sf constants draws = RsErr j x -> is_config_error x = true.
+  Proof.
+    intros symbols sf constants draws j x HK HD H. apply gen_samples_from_err in H.
+    destruct H as [d [N [_ G]]]. eapply gen_sample_error_kinds; eauto.
+    rewrite Forall_forall in HD. apply HD. eapply nth_error_In; eauto.
+  Qed.
+
+  (* ---------------------------------------------------------------- generate_variable_list, siblings *)
+  Notation add_numberedM := (add_numbered formula).
+  Notation generate_variable_listM := (generate_variable_list formula).
+  Notation add_siblingsM := (add_siblings formula).
+
+  Definition is_instance (heads : list str) (u : str) : bool :=
+    match numbered_match heads u with Some _ => true | None => false end.
+
+  (* the head of an instance is not itself an instance (no parseable name has two index groups) *)
+  Definition heads_plain (heads used : list str) : Prop :=
+    forall u h, In u used -> numbered_match heads u = Some h -> numbered_match heads h = None.
+
+  Lemma add_numbered_spec : forall heads bad vars (sf : sfT) vars' sf',
+    add_numberedM heads bad vars sf = Some (vars', sf') ->
+    heads_plain heads bad -> NoDup bad ->
+    vars' = vars ++ filter (is_instance heads) bad /\
+    (forall u h, In u bad -> numbered_match heads u = Some h -> alookup sf' u = alookup sf h) /\
+    (forall y, ~ (In y bad /\ is_instance heads y = true) -> alookup sf' y = alookup sf y).
+  Proof.
+    intros heads bad. induction bad as [|v r IH]; intros vars sf vars' sf' H HP ND; simpl in H.
+    - inversion H. subst. simpl. rewrite app_nil_r. repeat split; auto. intros u h [].
+    - inversion ND as [|? ? Hn ND']. subst.
+      assert (HP' : heads_plain heads r) by (intros u h Hu; apply HP; right; exact Hu).
+      simpl. unfold is_instance at 1. destruct (numbered_match heads v) as [hv|] eqn:MV.
+      + destruct (alookup sf hv) as [s|] eqn:LH; [ | discriminate].
+        destruct (IH _ _ _ _ H HP' ND') as [K1 [K2 K3]]. split; [ | split].
+        * rewrite K1. rewrite <- app_assoc. reflexivity.
+        * intros u h [Hu|Hu] MU.
+          -- subst u. rewrite K3 by tauto. simpl. rewrite str_eqb_refl. congruence.
+          -- rewrite (K2 u h Hu MU). apply alookup_cons_other_gen. intro E. subst h.
+             pose proof (HP u v (or_intror Hu) MU). congruence.
+        * intros y NY. rewrite K3 by (intros [A B]; apply NY; split; [right; exact A | exact B]).
+          apply alookup_cons_other_gen. intro E. subst y. apply NY. split; [left; reflexivity | ].
+          unfold is_instance. rewrite MV. reflexivity.
+      + destruct (IH _ _ _ _ H HP' ND') as [K1 [K2 K3]]. split; [exact K1 | split].
+        * intros u h [Hu|Hu] MU; [subst u; congruence | auto].
+        * intros y NY. apply K3. intros [A B]. apply NY. split; [right; exact A | exact B].
+  Qed.
+
+  Lemma numbered_match_in_heads : forall heads u h, numbered_match heads u = Some h -> In h heads.
+  Proof. intros heads u h H. unfold numbered_match in H. apply find_some in H. tauto. Qed.
+
+  Lemma add_numbered_some : forall heads bad vars (sf : sfT),
+    (forall h, In h heads -> amem sf h = true) -> exists r, add_numberedM heads bad vars sf = Some r.
+  Proof.
+    intros heads bad. induction bad as [|v r IH]; intros vars sf HH; simpl; [eauto | ].
+    destruct (numbered_match heads v) as [hv|] eqn:MV; [ | auto].
+    pose proof (HH _ (numbered_match_in_heads _ _ _ MV)) as A. apply amem_alookup in A. destruct A as [s A].
+    rewrite A. apply IH. intros h Hh. rewrite amem_cons, (HH _ Hh). apply orb_true_r.
+  Qed.
+
+  Definition bad_vars (variables used : list str) : list str :=
+    filter (fun v => negb (smem v variables)) (sdedup used).
+
+  Lemma In_bad_vars : forall variables used u, In u (bad_vars variables used) <-> In u used /\ ~ In u variables.
+  Proof. intros. unfold bad_vars. rewrite filter_In, In_sdedup, negb_true_iff, smem_false. tauto. Qed.
+
+  Theorem generate_variable_list_spec : forall variables heads used (sf : sfT) vars sf',
+    generate_variable_listM variables heads used sf = Some (vars, sf') ->
+    heads_plain heads used ->
+    (forall y, In y vars <-> In y variables \/ (In y used /\ ~ In y variables /\ is_instance heads y = true)) /\
+    (NoDup variables -> NoDup vars) /\
+    (exists extra, vars = variables ++ extra) /\
+    (forall u h, In u used -> ~ In u variables -> numbered_match heads u = Some h -> alookup sf' u = alookup sf h) /\
+    (forall y, In y variables \/ ~ In y used \/ is_instance heads y = false -> alookup sf' y = alookup sf y).
+  Proof.
+    intros variables heads used sf vars sf' H HP. unfold generate_variable_list in H. fold (bad_vars variables used) in H.
+    assert (HP' : heads_plain heads (bad_vars variables used)).
+    { intros u h Hu. apply HP. apply In_bad_vars in Hu. tauto. }
+    assert (NDB : NoDup (bad_vars variables used)) by (apply NoDup_filter; apply NoDup_sdedup).
+    destruct (add_numbered_spec _ _ _ _ _ _ H HP' NDB) as [K1 [K2 K3]]. split; [ | split; [ | split; [ | split]]].
+    - intro y. rewrite K1, in_app_iff, filter_In, In_bad_vars. tauto.
+    - intro ND. rewrite K1. apply NoDup_app_intro; [exact ND | apply NoDup_filter; exact NDB | ].
+      intros y Hy Hy'. apply filter_In in Hy'. destruct Hy' as [Hy' _]. apply In_bad_vars in Hy'. tauto.
+    - eauto.
+    - intros u h Hu NV MU. apply K2; [apply In_bad_vars; auto | exact MU].
+    - intros y Hy. apply K3. intros [A B]. apply In_bad_vars in A. destruct Hy as [Hy|[Hy|Hy]]; try tauto. congruence.
+  Qed.
+
+  Lemma add_siblings_spec : forall sibs vars (sf : sfT) vars' sf',
+    add_siblingsM sibs vars sf = (vars', sf') -> NoDup (map fst sibs) ->
+    vars' = vars ++ map fst sibs /\
+    (forall k f, In (k, f) sibs -> alookup sf' k = Some (SDep f)) /\
+    (forall y, ~ In y (map fst sibs) -> alookup sf' y = alookup sf y).
+  Proof.
+    induction sibs as [|[k f] r IH]; intros vars sf vars' sf' H ND; simpl in H.
+    - inversion H. subst. simpl. rewrite app_nil_r. repeat split; auto. intros k f [].
+    - simpl in ND. inversion ND as [|? ? Hn ND']. subst. destruct (IH _ _ _ _ H ND') as [K1 [K2 K3]].
+      split; [ | split].
+      + rewrite K1. simpl. rewrite <- app_assoc. reflexivity.
+      + intros k' f' [E|Hin].
+        * inversion E. subst. rewrite K3 by exact Hn. simpl. rewrite str_eqb_refl. reflexivity.
+        * apply K2. exact Hin.
+      + intros y NY. simpl in NY. rewrite K3 by tauto. apply alookup_cons_other_gen. intro. apply NY. left. congruence.
+  Qed.
+
+  Notation gen_var_samplesM := (gen_var_samples V formula fdeps ev).
+
+  (* the variable samples handed to the evaluation of a grader call *)
+  Theorem gen_var_samples_ok : ev_extensional ->
+    forall variables heads used sibs (sf : sfT) constants draws l,
+    heads_plain heads used -> NoDup (map fst sibs) ->
+    gen_var_samplesM variables heads used sibs sf constants draws = Some (RsOk l) ->
+    length l = length draws /\
+    Forall (fun e =>
+      (* declared variables *)
+      (forall v, In v variables -> amem e v = true) /\
+      (* numbered instances used in the expressions *)
+      (forall u, In u used -> is_instance heads u = true -> amem e u = true) /\
+      (* siblings: dependent on the rest of the same sample *)
+      (forall k f, In (k, f) sibs -> exists v, alookup e k = Some v /\ ev f e = Some v) /\
+      (* constants not shadowed by a sampled name *)
+      (forall c v, alookup constants c = Some v -> ~ In c variables -> ~ In c (map fst sibs) ->
+                   ~ (In c used /\ is_instance heads c = true) -> alookup e c = Some v) /\
+      (* declared dependent variables *)
+      (forall x f, In x variables -> ~ In x (map fst sibs) -> alookup sf x = Some (SDep f) ->
+                   ~ In x (fdeps f) /\ exists v, alookup e x = Some v /\ ev f e = Some v) /\
+      (* numbered instances of a dependent base name *)
+      (forall u h f, In u used -> ~ In u variables -> ~ In u (map fst sibs) -> numbered_match heads u = Some h ->
+                     alookup sf h = Some (SDep f) -> exists v, alookup e u = Some v /\ ev f e = Some v) /\
+      (* nothing else *)
+      (forall y, amem e y = true -> In y variables \/ In y (map fst sibs) \/ (In y used /\ is_instance heads y = true)
+                                    \/ amem constants y = true)) l.
+  Proof.
+    intros EXT variables heads used sibs sf constants draws l HP NDS H. unfold gen_var_samples in H.
+    destruct (generate_variable_listM variables heads used sf) as [[vars sf1]|] eqn:G; [ | discriminate].
+    destruct (add_siblingsM sibs vars sf1) as [vars2 sf2] eqn:A. inversion H as [H']. clear H.
+    destruct (generate_variable_list_spec _ _ _ _ _ _ G HP) as [G1 [_ [_ [G4 G5]]]].
+    destruct (add_siblings_spec _ _ _ _ _ A NDS) as [A1 [A2 A3]].
+    destruct (gen_symbols_samples_ok EXT _ _ _ _ _ H') as [LEN ALL]. split; [exact LEN | ].
+    eapply Forall_impl; [ | exact ALL]. intros e [C1 [C2 [C3 C4]]].
+    assert (INV : forall y, In y vars2 <-> In y vars \/ In y (map fst sibs)) by (intro y; rewrite A1; apply in_app_iff).
+    split; [ | split; [ | split; [ | split; [ | split; [ | split]]]]].
+    - intros v Hv. apply C1. apply INV. left. apply G1. auto.
+    - intros u Hu IU. apply C1. apply INV. destruct (in_dec str_eq_dec u variables) as [D|D].
+      + left. apply G1. auto.
+      + left. apply G1. right. auto.
+    - intros k f Hk. destruct (C4 k f) as [_ [_ R]]; [apply INV; right; apply in_map_iff; exists (k, f); auto | auto | exact R].
+    - intros c v L NV NS NI. apply C2; [exact L | ]. intro K. apply INV in K. destruct K as [K|K]; [ | contradiction].
+      apply G1 in K. tauto.
+    - intros x f Hx NS L. destruct (C4 x f) as [_ [R1 R2]]; [apply INV; left; apply G1; auto | | auto].
+      rewrite A3 by exact NS. rewrite G5 by auto. exact L.
+    - intros u h f Hu NV NS MU L. destruct (C4 u f) as [_ [_ R]]; [ | | exact R].
+      + apply INV. left. apply G1. right. unfold is_instance. rewrite MU. auto.
+      + rewrite A3 by exact NS. rewrite (G4 u h Hu NV MU). exact L.
+    - intros y Hy. destruct (C3 y Hy) as [K|[K _]]; [ | auto].
+      apply INV in K. destruct K as [K|K]; [ | auto]. apply G1 in K. tauto.
+  Qed.
+End ResolveProofs.
